@@ -120,7 +120,8 @@ class Expression(ABC):
     ) -> dict[str, Expression]:
         accumulator = acc.SyntheticPartialsAccumulator()
         self._compute_synthetic_partials(accumulator, ex.Constant(1))
-        return accumulator.synthetic_partials_for(self._variable_names)
+        # Sorted so that the order of the partials never depends on set iteration order.
+        return accumulator.synthetic_partials_for(sorted(self._variable_names))
 
     @abstractmethod
     def _compute_synthetic_partials(
